@@ -39,7 +39,8 @@ MANIFEST = {
             'history of h<=3 earlier opens and every probe, and EVERY '
             'assignment of isMine truth values, the reader selected for the '
             'probe equals the one selected from the untouched registry and '
-            'the registry (contents and order) is unchanged by opens.',
+            'the registry (contents and order) is unchanged by opens.'
+            ' Also: one open with an explicitly named format and one re-registration of a registered reader as history.',
     'note': 'Trusted: z3; os.path.splitext/isfile are the real ones. The '
             'clause "auto-detected equals explicitly named for real files" '
             'is not encodable (file I/O) and not claimed.',
